@@ -2,6 +2,7 @@ package main
 
 import (
 	"fmt"
+	"regexp"
 	"strings"
 	"go/token"
 	"go/types"
@@ -104,6 +105,7 @@ func (in *Interp) anyModel() Model {
 }
 
 func (in *Interp) initStubs2() {
+	in.initRegexpStubs()
 	s := in.stubs
 	tb := in.tb
 	s["reflect.TypeOf"] = func(in *Interp, th *Thread, fn *ssa.Function, a []Value) (Value, stubStatus) {
@@ -395,4 +397,88 @@ func (in *Interp) tryIfConvert(f *Frame, c *Term) bool {
 	f.block = join
 	f.ip = len(phis)
 	return true
+}
+
+// ---- regexp: evaluated by the host's regexp package on concrete strings (never symbolic) ----
+
+func (in *Interp) initRegexpStubs() {
+	s := in.stubs
+	tb := in.tb
+	conc := func(v Value, what string) string {
+		str, ok := v.(StrV).concrete()
+		if !ok {
+			panic(in.unsupported("regexp on symbolic string (" + what + ")"))
+		}
+		return str
+	}
+	compile := func(in *Interp, fn *ssa.Function, a []Value) (Value, error) {
+		expr := conc(a[0], "pattern")
+		re, err := regexp.Compile(expr)
+		if err != nil {
+			return Ptr{}, err
+		}
+		rt := fn.Signature.Results().At(0).Type().(*types.Pointer).Elem()
+		c := in.newCell(rt, in.newObject(rt, "regexp "+expr))
+		in.hostRegexps[c] = re
+		return Ptr{c: c}, nil
+	}
+	s["regexp.Compile"] = func(in *Interp, th *Thread, fn *ssa.Function, a []Value) (Value, stubStatus) {
+		in.note("model:regexp-evaluated-by-host-on-concrete-strings")
+		p, err := compile(in, fn, a)
+		if err != nil {
+			return TupleV{Ptr{}, in.sentinelError("regexp.Compile:" + err.Error())}, stDone
+		}
+		return TupleV{p, IfaceV{}}, stDone
+	}
+	s["regexp.MustCompile"] = func(in *Interp, th *Thread, fn *ssa.Function, a []Value) (Value, stubStatus) {
+		p, err := compile(in, fn, a)
+		if err != nil {
+			in.goPanic(th, "regexp: MustCompile: "+err.Error())
+			return nil, stPanicked
+		}
+		return p, stDone
+	}
+	s["regexp.QuoteMeta"] = func(in *Interp, th *Thread, fn *ssa.Function, a []Value) (Value, stubStatus) {
+		return constStr(regexp.QuoteMeta(conc(a[0], "QuoteMeta")), tb), stDone
+	}
+	host := func(in *Interp, v Value) *regexp.Regexp {
+		p := v.(Ptr)
+		re := in.hostRegexps[p.c]
+		if re == nil {
+			panic(in.unsupported("regexp object not created by regexp.Compile"))
+		}
+		return re
+	}
+	s["(*regexp.Regexp).MatchString"] = func(in *Interp, th *Thread, fn *ssa.Function, a []Value) (Value, stubStatus) {
+		return tb.Bool(host(in, a[0]).MatchString(conc(a[1], "MatchString"))), stDone
+	}
+	s["(*regexp.Regexp).NumSubexp"] = func(in *Interp, th *Thread, fn *ssa.Function, a []Value) (Value, stubStatus) {
+		return tb.Const(uint64(host(in, a[0]).NumSubexp()), 64), stDone
+	}
+	s["(*regexp.Regexp).String"] = func(in *Interp, th *Thread, fn *ssa.Function, a []Value) (Value, stubStatus) {
+		return constStr(host(in, a[0]).String(), tb), stDone
+	}
+	s["(*regexp.Regexp).FindStringSubmatchIndex"] = func(in *Interp, th *Thread, fn *ssa.Function, a []Value) (Value, stubStatus) {
+		idx := host(in, a[0]).FindStringSubmatchIndex(conc(a[1], "FindStringSubmatchIndex"))
+		if idx == nil {
+			return SliceV{}, stDone
+		}
+		arr := in.newArrayCell(types.Typ[types.Int], len(idx), "submatch")
+		for i, v := range idx {
+			arr.kids[i].v = tb.Const(uint64(int64(v)), 64)
+		}
+		return SliceV{arr: arr, len: len(idx), cap: len(idx)}, stDone
+	}
+	s["strings.SplitN"] = func(in *Interp, th *Thread, fn *ssa.Function, a []Value) (Value, stubStatus) {
+		n := in.intTerm(a[2])
+		if n.op != OpConst {
+			panic(in.unsupported("strings.SplitN with symbolic n"))
+		}
+		parts := strings.SplitN(conc(a[0], "SplitN"), conc(a[1], "SplitN"), int(sx(n.val, 64)))
+		arr := in.newArrayCell(types.Typ[types.String], len(parts), "SplitN")
+		for i, p := range parts {
+			arr.kids[i].v = constStr(p, tb)
+		}
+		return SliceV{arr: arr, len: len(parts), cap: len(parts)}, stDone
+	}
 }
